@@ -18,8 +18,8 @@ WHAT = {
 }
 ACTIONS = ["StartDoc", "PickLimit", "RunTest", "OnCode", "ValidateDoc", "EndDoc", "Finish"]
 FOCUS_ACTIONS = {"C05": ["OnUnknown"], "C14": ["OnTimeout"], "C15": ["OnSkip"], "C20": ["OnSkip", "OnDetached", "OnUnknown"]}
-QUICK = {"C05": 260, "C14": 170, "C15": 220, "C20": 220}
-THOROUGH = {"C05": 4000, "C14": 200, "C15": 3000, "C20": 3000}
+QUICK = {"C05": 450, "C14": 200, "C15": 400, "C20": 260}
+THOROUGH = {"C05": 4000, "C14": 400, "C15": 3000, "C20": 3000}
 
 
 def _cfg(work, name, focus, body):
@@ -98,7 +98,8 @@ def run(prop, tier, replay=None):
                         if t["det"] and len(ts) == 3 and any(u["dur"] > 0 or u["beh"] == "signal" or u["code"] == 80 for u in ts[i + 1:]):
                             return True
                 return False
-            small = [v for v in allsc if sum(len(d["tests"]) for d in v["sc"]["docs"]) <= 1 or (prop in ("C20", "C05") and rare(v)) or detcut(v) or v["sc"].get("compat")]
+            small = [v for v in allsc if sum(len(d["tests"]) for d in v["sc"]["docs"]) <= 1 or (prop in ("C20", "C05") and rare(v)) or detcut(v) or v["sc"].get("compat")
+                     or (prop == "C05" and (v["sc"]["pre"] or v["sc"]["app"]))]
             rest = [v for v in allsc if v not in small]
             chosen = small + rnd.sample(rest, max(0, want - len(small)))
         cov["scenarios_enumerated"] = len(allsc)
